@@ -3,8 +3,10 @@
 
 usage: tools/seed_rerun.py [--checks C01,C02] [--seeds C05-1,C05-2] [--own]
   --own : for each seed run only the check of the property it was written for
-Applies seeded/<id>/patch.diff to /repo, runs the checks, restores /repo
-(git checkout), restores /verif/evidence, updates seeded/<id>/meta.json and
+Applies seeded/<id>/patch.diff to a private scratch worktree of /repo HEAD
+(removed afterwards), runs the checks on it with a snapshot of bin/phpverif and
+a shadow verification directory (so neither /repo nor /verif/evidence is
+touched and /verif can be edited meanwhile), updates seeded/<id>/meta.json and
 writes seeded/MATRIX.md.
 """
 import argparse, json, os, subprocess, sys, time
@@ -19,7 +21,7 @@ def sh(cmd, cwd=None, timeout=1800):
 
 def main():
     ap = argparse.ArgumentParser()
-    ap.add_argument('--checks'); ap.add_argument('--seeds'); ap.add_argument('--own', action='store_true')
+    ap.add_argument('--checks'); ap.add_argument('--seeds'); ap.add_argument('--own', action='store_true'); ap.add_argument('--jobs', type=int, default=8)
     a = ap.parse_args()
     man = json.load(open('/verif/MANIFEST.json'))
     registered = [c['property_id'] for c in man['checks']]
@@ -27,41 +29,59 @@ def main():
     seeds = sorted(d for d in os.listdir('/verif/seeded') if os.path.isdir('/verif/seeded/' + d))
     if a.seeds:
         seeds = a.seeds.split(',')
-    rc, out = sh('git -C /repo status --porcelain')
-    assert out.strip() == '', '/repo not clean'
-    sh('./check C18 quick', cwd='/verif')  # builds the analyser once
-    for s in seeds:
-        d = '/verif/seeded/' + s
-        meta = json.load(open(d + '/meta.json'))
-        own = meta.get('property', s.split('-')[0])
-        ids = [c for c in checks if (not a.own or c == own)]
-        ids = [c for c in ids if c in registered]
-        if not ids:
-            continue
-        rc, out = sh('git -C /repo apply %s/patch.diff' % d)
-        if rc != 0:
-            print('%s: PATCH DOES NOT APPLY: %s' % (s, out.strip()[:200]))
-            continue
-        det = dict(meta.get('detected_by') or {})
-        silent = set(meta.get('silent') or [])
-        try:
-            for cid in ids:
-                rc, out = sh('./bin/phpverif check %s --tier quick' % cid, cwd='/verif')
+    from concurrent.futures import ThreadPoolExecutor
+    import shutil, tempfile
+    base = tempfile.mkdtemp(prefix='seedrerun-', dir='/tmp')
+    wt, vf, binp = base + '/wt', base + '/vf', base + '/phpverif'
+    rc, out = sh('./check C18 quick', cwd='/verif')  # builds the analyser once
+    shutil.copy('/verif/bin/phpverif', binp)
+    rc, out = sh('git -C /repo worktree add --detach -q %s HEAD' % wt)
+    assert rc == 0, out
+    os.makedirs(vf + '/evidence')
+    for f in ('testdata', 'known_findings.json', 'bin', 'MANIFEST.json', 'properties.jsonl'):
+        os.symlink('/verif/' + f, vf + '/' + f)
+    try:
+        for s in seeds:
+            d = '/verif/seeded/' + s
+            if not os.path.exists(d + '/meta.json'):
+                continue
+            meta = json.load(open(d + '/meta.json'))
+            own = meta.get('property', s.split('-')[0])
+            ids = [c for c in checks if (not a.own or c == own)]
+            ids = [c for c in ids if c in registered]
+            if not ids:
+                continue
+            rc, out = sh('git -C %s apply %s/patch.diff' % (wt, d))
+            if rc != 0:
+                print('%s: PATCH DOES NOT APPLY: %s' % (s, out.strip()[:200]))
+                sh('git checkout -q -- . && git clean -fdq', cwd=wt)
+                continue
+            det = dict(meta.get('detected_by') or {})
+            silent = set(meta.get('silent') or [])
+            def one(cid):
+                rc, out = sh('%s check %s --tier quick --repo %s --verif %s' % (binp, cid, wt, vf), cwd='/verif')
                 lines = [l.strip()[:400] for l in out.splitlines() if l.startswith('  violated') or l.startswith('  undecided')]
-                if rc != 0:
-                    det[cid] = lines[:6]
-                    silent.discard(cid)
-                else:
-                    det.pop(cid, None)
-                    silent.add(cid)
-        finally:
-            sh('git -C /repo checkout -- . && git -C /repo clean -fdq')
-        meta['detected_by'] = det
-        meta['silent'] = sorted(silent)
-        meta['checks_run'] = sorted(set(meta.get('checks_run') or []) | set(ids))
-        json.dump(meta, open(d + '/meta.json', 'w'), indent=1)
-        print('%s: detected by %s%s' % (s, sorted(det) or 'NONE', '' if own in det else ('   (own check %s: %s)' % (own, 'silent' if own in silent else 'not registered/run'))))
-    sh('git -C /verif checkout -- evidence')
+                return cid, rc, lines
+            try:
+                with ThreadPoolExecutor(a.jobs) as ex:
+                    for cid, rc, lines in ex.map(one, ids):
+                        if rc != 0:
+                            det[cid] = lines[:6]
+                            silent.discard(cid)
+                        else:
+                            det.pop(cid, None)
+                            silent.add(cid)
+            finally:
+                sh('git checkout -q -- . && git clean -fdq', cwd=wt)
+            meta['detected_by'] = det
+            meta['silent'] = sorted(silent)
+            meta['checks_run'] = sorted(set(meta.get('checks_run') or []) | set(ids))
+            json.dump(meta, open(d + '/meta.json', 'w'), indent=1)
+            print('%s: detected by %s%s' % (s, sorted(det) or 'NONE', '' if own in det else ('   (own check %s: %s)' % (own, 'silent' if own in silent else 'not registered/run'))))
+            sys.stdout.flush()
+    finally:
+        sh('git -C /repo worktree remove --force %s' % wt)
+        shutil.rmtree(base, ignore_errors=True)
     # matrix
     rows = ['| seed | property | needs | detected by | first report |', '|---|---|---|---|---|']
     for s in sorted(d for d in os.listdir('/verif/seeded') if os.path.isdir('/verif/seeded/' + d)):
